@@ -14,6 +14,8 @@ import (
 	"sort"
 	"strings"
 
+	"github.com/johnkerl/miller/v6/pkg/dsl/cst"
+
 	"verif/harness/vf"
 )
 
@@ -57,6 +59,38 @@ func raceChains() []raceChain {
 	}
 	// implode after explode twice (two implode stages in one chain)
 	out = append(out, raceChain{name: "explode x2 then implode x2", args: S("nest --explode --values --across-fields -f s --nested-fs ; then nest --explode --values --across-fields -f r --nested-fs ; then nest --implode --values --across-fields -f s --nested-fs ; then nest --implode --values --across-fields -f r --nested-fs ;")})
+	// verbs that consume what they produce (a second `sec2gmt t` finds a string and formats nothing): two stages on
+	// two different fields, so that both stages really run the formatter at the same time
+	for _, pr := range [][2]string{{"sec2gmt t", "sec2gmt u"}, {"sec2gmt -3 t", "sec2gmt -6 u"}, {"sec2gmtdate t", "sec2gmtdate u"}, {"sec2gmt t", "sec2gmtdate u"},
+		{"sec2gmt --millis t", "sec2gmt --micros u"}, {"fill-down -f e", "fill-down -a -f e2"}, {"fill-empty -v X", "fill-empty -S -v Y"},
+		{"sub -f s a b", "sub -f r p b"}, {"gsub -f s [ab] X", "gsub -f r [pq] Y"}, {"ssub -f s a b", "ssub -f r p b"},
+		{"format-values -n -f %.3f", "format-values -i %08llx"}, {"nest --evar ; -f s", "nest --evar ; -f r"}, {"split-join", ""},
+		{"stats1 -a p10,p50,mean -f i -g g", "stats1 -a p10,p50,mean -f i_p50"}, {"merge-fields -k -a sum,p50 -f i,t -o o", "merge-fields -k -a sum,p50 -f u,x -o p"},
+		{"step -a ewma -d 0.1,0.9 -f i", "step -a ewma -d 0.1,0.9 -f x"}, {"step -a slwin_2_2,shift_lag -f i", "step -a slwin_2_2,shift_lead -f x"},
+		{"top -n 2 -f i -g g -a", "top -n 1 -f x -a"}, {"count-distinct -f g", "count-distinct -f g"}, {"seqgen", ""},
+		{"case -u -k -f g", "case -s -v -f g"}, {"having-fields --any-matching ^[ix]", "having-fields --all-matching ^[a-z]"}, {"sec2str", ""},
+		{"cut -r -f ^[a-s]", "cut -r -f ^[a-h]"}, {"rename -g -r [aeiou],V", "rename -r ^(.)V,\\1W"}, {"reorder -f t,i", "reorder -e -f i,t"},
+		{"summary -a mean,minlen,null_count", "summary -a mean,minlen --transpose"}, {"unspace", "unspace -k"}, {"sort-within-records -n", "sort-within-records -r ^[a-m]"},
+		{"sort -t g -nr x", "sort -c g -nf i"}, {"nothing", ""}} {
+		if pr[1] == "" {
+			continue
+		}
+		out = append(out, raceChain{name: pr[0] + " then " + pr[1], args: append(append(S(pr[0]), "then"), S(pr[1])...)})
+	}
+	// a verb that keeps looking at records it has already passed on (look-back windows, fill-down, last-record state)
+	// must not see what the NEXT verb does to them: every stateful streaming verb followed by a mutator of the same fields
+	for _, v := range []string{"step -a shift,shift_lag,delta,ratio,counter,rsum,rprod -f i,x", "step -a ewma -d 0.1 -f i,x", "step -a slwin_2_0 -f i,x", "step -a slwin_0_2 -f i,x",
+		"step -a slwin_2_2,from-first -f i,x", "step -a shift_lead -f i,x", "fill-down -f e,g", "fill-down -a -f e,g", "fill-down --all", "cat -n -g g", "head -n 1000000 -g g",
+		"decimate -n 3 -b", "decimate -n 3 -e -g g", "uniq -a -c", "uniq -x i,t,u,x,s -c", "uniq -a -n", "gap -n 4", "gap -g g", "merge-fields -k -a sum,max -f i,x -o o", "top -n 2 -f i -g g -a",
+		"unsparsify -f zz,i", "nest --implode --values --across-records -f s --nested-fs ;", "sec2gmt t", "count-similar -g g", "fraction -f i", "having-fields --at-least i",
+		"seqgen -f z --start 1 --stop 3000", "tee /dev/null", "bar -f i --lo 0 --hi 100", "json-parse -f i", "case -u -f g", "template -f i,g,x,zz --fill-with X", "sparsify -f e", "regularize", "rename -r ^(.)$,\\1",
+		"reorder -e -f i", "label a,b", "sort-within-records", "nothing"} {
+		if strings.HasPrefix(v, "seqgen") || v == "nothing" {
+			continue
+		}
+		args := append(S(v), "then", "put", `$i=$i*1000;$x=$x*7;$g=$g."y";$e=$e."z";$s="m"`)
+		out = append(out, raceChain{name: v + " then put (mutates i x g e s)", args: args})
+	}
 	out = append(out, raceChain{name: "seeded urandint x2", args: []string{"--seed", "1", "put", "$a=urandint(1,9)", "then", "put", "$b=urandint(1,9)"}})
 	return out
 }
@@ -76,7 +110,11 @@ func raceWorker(w *vf.Worker) {
 		n = 12000
 	}
 	for i := 1; i <= n; i++ {
-		fmt.Fprintf(&in, "i=%d,g=%c,t=%d,s=a;b;c%d,r=p;q\n", i, 'a'+i%3, 1500000000+i, i%7)
+		e := ""
+		if i%5 == 0 {
+			e = "v"
+		}
+		fmt.Fprintf(&in, "i=%d,g=%c,t=%d,s=a;b;c%d,r=p;q,u=%d,x=%d.25,e=%s,e2=%s\n", i, 'a'+i%3, 1500000000+i, i%7, 1400000000+7*i, i%11, e, e)
 	}
 	input := in.String()
 	readLogs := func() string {
@@ -106,6 +144,7 @@ func raceWorker(w *vf.Worker) {
 		w.Count("race_pass_chains", 1)
 		if !res.OK() {
 			w.Count("race_pass_chains_exiting_nonzero", 1)
+			w.Inexhaustive(fmt.Sprintf("race pass chain `%s` exits non-zero (%s): it exercises nothing", rc.name, trunc(res.Stderr+res.Err, 200)))
 		}
 		logs := readLogs()
 		seen := map[string]bool{}
@@ -129,4 +168,191 @@ func raceWorker(w *vf.Worker) {
 			w.Sample(map[string]any{"race_pass": rc.name, "records": n, "batch": 20, "repetitions": 3})
 		}
 	}
+}
+
+// ---------------------------------------------------------------- every built-in function, in two verbs at once
+//
+// A scratch buffer, cache or lookup table that a built-in function keeps at package scope is shared by all the verb
+// goroutines of a chain. The family below runs every function of the built-in table (walked through the overlay-only
+// export, so that a new function is in scope automatically) in two `put` stages of one chain, for every argument tuple
+// of a small typed menu on which the function returns a value (found by a one-record dry run per tuple).
+
+var funcMenu = []string{`$i`, `$x`, `$s`, `$t`, `$d`, `";"`, `"%Y-%m-%d %H:%M:%S"`, `"%08.3lf"`, `"a"`, `$*`, `[1,$i,3]`, `"Asia/Tokyo"`, `3`, `"^(a);(b)"`}
+var funcMenu3 = []string{`$i`, `$s`, `$t`, `$d`, `";"`, `"%Y-%m-%d %H:%M:%S"`, `"a"`, `"Asia/Tokyo"`, `3`, `$*`, `"^(a);(b)"`}
+
+const funcRecord = "i=7,x=2.25,s=a;b;c3,t=1500000007,d=2023-01-02 03:04:05,g=a\n"
+
+var identRe = regexp.MustCompile(`^[a-z_][a-z0-9_]*$`)
+
+type funcCase struct {
+	name  string
+	arity int
+}
+
+func funcCases() []funcCase {
+	var out []funcCase
+	for _, b := range cst.VerifC18BuiltinTable() {
+		if !identRe.MatchString(b.Name) || strings.HasPrefix(b.Name, "urand") || b.Name == "exec" || b.Name == "system" || b.Name == "os_type" || b.Name == "hostname" || b.Name == "systime" || b.Name == "systimeint" || b.Name == "sysntime" || b.Name == "uptime" || b.Name == "version" {
+			continue // operators are covered by the put chains above; the RNG is a recorded finding; no subprocesses / clocks here
+		}
+		if b.Unary {
+			out = append(out, funcCase{b.Name, 1})
+		}
+		if b.Binary {
+			out = append(out, funcCase{b.Name, 2})
+		}
+		if b.Ternary {
+			out = append(out, funcCase{b.Name, 3})
+		}
+		if b.Variadic {
+			for _, a := range []int{1, 2, 3} {
+				if a >= b.MinVar && (b.MaxVar == 0 || a <= b.MaxVar) && !(a == 1 && b.Unary) && !(a == 2 && b.Binary) && !(a == 3 && b.Ternary) {
+					out = append(out, funcCase{b.Name, a})
+				}
+			}
+		}
+	}
+	return out
+}
+
+func tuples(arity int) [][]string {
+	menu := funcMenu
+	if arity == 3 {
+		menu = funcMenu3
+	}
+	out := [][]string{{}}
+	for k := 0; k < arity; k++ {
+		var next [][]string
+		for _, p := range out {
+			for _, m := range menu {
+				next = append(next, append(append([]string{}, p...), m))
+			}
+		}
+		out = next
+	}
+	return out
+}
+
+func raceFuncWorker(w *vf.Worker) {
+	logBase := os.Getenv("VERIF_RACE_LOG")
+	if logBase == "" {
+		w.Broken("race worker without VERIF_RACE_LOG")
+		return
+	}
+	n := 400
+	if !w.Quick() {
+		n = 2000
+	}
+	var in strings.Builder
+	for i := 1; i <= n; i++ {
+		fmt.Fprintf(&in, "i=%d,x=%d.25,s=a;b;c%d,t=%d,d=2023-01-%02d 03:04:%02d,g=%c\n", i, i%11, i%7, 1500000000+i*3600, 1+i%28, i%60, 'a'+i%3)
+	}
+	input := in.String()
+	readLogs := func() string {
+		var all strings.Builder
+		matches, _ := filepath.Glob(logBase + ".*")
+		for _, m := range matches {
+			b, _ := os.ReadFile(m)
+			all.Write(b)
+			os.Truncate(m, 0)
+		}
+		return all.String()
+	}
+	one := funcRecord
+	for ci, fc := range funcCases() {
+		idx := uint64(ci + 1)
+		if !w.Mine(idx) {
+			continue
+		}
+		w.Begin(idx)
+		w.Label(func() string { return fmt.Sprintf("race func %s/%d", fc.name, fc.arity) })
+		// dry run: the tuples on which the function yields a value (not an error, not absent, not a fatal)
+		var cands []string
+		for _, tp := range tuples(fc.arity) {
+			if (fc.name == "leftpad" || fc.name == "rightpad") && (tp[1] == `$t` || tp[1] == `$i`) {
+				continue // pads to that many characters: gigabytes
+			}
+			cands = append(cands, fc.name+"("+strings.Join(tp, ",")+")")
+		}
+		max := 60
+		if w.Quick() {
+			max = 12
+		}
+		calls := valued(cands, one, max)
+		w.Eval(1)
+		if len(calls) == 0 {
+			w.Count("race_funcs_without_a_valued_tuple", 1)
+			w.AddSet("race_funcs_without_a_valued_tuple_names", fmt.Sprintf("%s/%d", fc.name, fc.arity))
+			continue
+		}
+		var e1, e2 strings.Builder
+		for k, c := range calls {
+			// results go to a local, not into the record: with $* in the menu a record that keeps its results doubles per call
+			_ = k
+			fmt.Fprintf(&e1, "o=%s;", c)
+			fmt.Fprintf(&e2, "o=%s;", c)
+		}
+		readLogs()
+		args := []string{"--records-per-batch", "10", "--ofmt", "%.6lf", "put", e1.String(), "then", "put", e2.String()}
+		reps := 2
+		var res vf.MlrResult
+		for rep := 0; rep < reps; rep++ {
+			res = vf.RunMlr(args, vf.MlrOpts{Stdin: &input})
+		}
+		w.Eval(int64(reps))
+		w.Count("race_pass_function_cases", 1)
+		w.Count("race_pass_function_calls", int64(len(calls)))
+		if !res.OK() {
+			w.Count("race_pass_function_cases_exiting_nonzero", 1)
+		}
+		logs := readLogs()
+		seen := map[string]bool{}
+		for _, m := range raceRe.FindAllStringSubmatch(logs, -1) {
+			frames := frameRe.FindAllStringSubmatch("\n"+m[1]+"\n", 3)
+			var top []string
+			for _, f := range frames {
+				top = append(top, strings.TrimPrefix(f[1], "github.com/johnkerl/miller/v6/pkg/"))
+			}
+			site := strings.Join(top, "|")
+			if seen[site] {
+				continue
+			}
+			seen[site] = true
+			w.Violation(fmt.Sprintf("data-race:%s", site), fmt.Sprintf("the race detector reports unsynchronised access between goroutines at %s (seen while two `put` stages of one chain both called %s/%d, or shortly before): bytes can differ from run to run", site, fc.name, fc.arity),
+				map[string]any{"argv": trunc(strings.Join(args, " "), 600), "records": n, "report": trunc(m[1], 1500)})
+		}
+		w.Nontrivial(1)
+		if ci < 2 {
+			w.Sample(map[string]any{"race_pass_function": fc.name, "arity": fc.arity, "calls": calls, "records": n})
+		}
+	}
+}
+
+// valued returns (up to max of) the calls that yield a value on the one-record input: all candidates are typed in one
+// run; a run that fails (some tuple is fatal for this function) is bisected.
+func valued(cands []string, one string, max int) []string {
+	if len(cands) == 0 || max <= 0 {
+		return nil
+	}
+	var e strings.Builder
+	for _, c := range cands {
+		e.WriteString("o=" + c + ";print typeof(o);")
+	}
+	r := vf.RunMlr([]string{"put", "-q", e.String()}, vf.MlrOpts{Stdin: &one})
+	lines := strings.Split(strings.TrimRight(r.Stdout, "\n"), "\n")
+	if r.OK() && len(lines) == len(cands) {
+		var out []string
+		for k, ty := range lines {
+			if ty != "error" && ty != "absent" && ty != "" && len(out) < max {
+				out = append(out, cands[k])
+			}
+		}
+		return out
+	}
+	if len(cands) == 1 {
+		return nil
+	}
+	h := len(cands) / 2
+	out := valued(cands[:h], one, max)
+	return append(out, valued(cands[h:], one, max-len(out))...)
 }
